@@ -20,6 +20,7 @@ func iterNext(
 }
 
 func evalIterCall(self object.PanObject) object.PanObject {
+	defer verifCall()()
 	switch f := self.(type) {
 	case *object.PanFunc:
 		// inject var `recur`
